@@ -32,6 +32,14 @@ def make_batch_xml(ctx, g, n):
         d, scopes = b.random_document(n_records=g.rng.randint(1, 8))
         doc = w.conts[d]
         ft = g.chance(0.5)
+        if g.chance(0.2):
+            # second chapter: written once, changed in place, and only then written for the record
+            try:
+                doc.serialize(format="xml", force_types=g.chance(0.5))
+            except Exception:  # noqa
+                pass
+            if b.mutate_in_place([d]):
+                ctx.count("changed-after-first-export")
         try:
             text = doc.serialize(format="xml", force_types=ft)
         except Exception as e:  # noqa: a name that XML cannot express
@@ -76,6 +84,13 @@ def make_batch(ctx, g, n):
         d, scopes = b.random_document(n_records=g.rng.randint(1, 8))
         doc = w.conts[d]
         opts = g.choice(OPTION_SETS)
+        if g.chance(0.2):
+            try:
+                doc.serialize(format="json", **g.choice(OPTION_SETS))
+            except Exception:  # noqa
+                pass
+            if b.mutate_in_place([d]):
+                ctx.count("changed-after-first-export")
         try:
             text = doc.serialize(format="json", **opts)
         except Exception as e:  # noqa
